@@ -714,7 +714,7 @@ class Tables:
             if t in canon:
                 continue
             try:
-                b = list(base64.b64decode(t))
+                b = list(base64.b64decode(t, validate=True))    # what BLOBType.import_value calls (fact blob_import_strict_base64)
             except Exception:
                 continue
             rows.append((b, base64.b64encode(bytes(b)).decode('ascii')))
@@ -1032,9 +1032,9 @@ def oracle(case, obs):
 
 
 def _lax_container_entry(dt, j):
-    """an entry for an array/tuple/struct parameter that is not a valid transport value of that datatype
-    (wrong length / members, or another iterable in place of the list)"""
-    return dt[0] in ('array', 'tuple', 'struct') and spec_usable(dt, j) is None
+    """an entry for a parameter whose datatype contains a struct that is not a valid transport value of that datatype
+    (a struct with missing members is accepted by import_value, all members being optional by default)"""
+    return has_kind(dt, 'struct') and spec_usable(dt, j) is None
 
 
 def _f_retry(case, obs, failure):
